@@ -57,8 +57,12 @@ func judge(c Case, w *vkit.W) {
 		for i := range b {
 			b[i] ^= 0xFF
 		}
-		if b2, err := dt.MarshalBinary(); err != nil || !bytes.Equal(b2, want) {
+		b2, err := dt.MarshalBinary()
+		if err != nil || !bytes.Equal(b2, want) {
 			w.Fail(c, "marshal-result-shared", fmt.Sprintf("MarshalBinary(%d-%d-%d) after the caller overwrote an earlier result = %v, %v; want %v", c.Y, c.M, c.D, b2, err, want))
+		} else {
+			// kept as returned until the next date has been marshalled; its storage (with any spare capacity) is then reused by the caller
+			w.RetainBytes(c, "MarshalBinary", b2, string(want))
 		}
 		back := sentinel
 		if err := back.UnmarshalBinary(want); err != nil {
